@@ -347,7 +347,8 @@ def Sess.removePDR (s : Sess) (ie : RuleIE) (c : Ctx) : Sess × Ctx × List Repo
       if !a.ok then (s, c1, []) else
       -- (`delete(s.PDRIDs, pdrid)` comes after the dissociation loop in node.go; the loop does not read the PDR map,
       --  so the model deletes first — same result, and the driver call and the bookkeeping change stay together)
-      ({ s with pdrs := alDel s.pdrs pdrid } : Sess).diassociateAll us c1
+      -- (the packets buffered for the PDR go with it: `delete(s.q, pdrid)`)
+      ({ s with pdrs := alDel s.pdrs pdrid, q := alDel s.q pdrid } : Sess).diassociateAll us c1
 
 /-- `CreateURR`: a fresh `URRInfo` (overwriting any old one) is recorded before the driver call -/
 def Sess.createURR (s : Sess) (ie : RuleIE) (c : Ctx) : Sess × Ctx :=
